@@ -269,6 +269,17 @@ def normalizeStringForPostscript(s, allowSpaces=True):
             c = unicodedata.normalize("NFKD", c)
             if not set(c) < _postscriptFontNameAllowed:
                 c = c.encode("ascii", errors="replace").decode()
+            # the decomposition (or a control character) may still yield spaces,
+            # delimiters or non-printable characters: filter those as well
+            c = "".join(
+                ch
+                for ch in c
+                if (
+                    ch in _postscriptFontNameAllowed
+                    and ch not in _postscriptFontNameExceptions
+                )
+                or (ch == " " and allowSpaces)
+            )
         normalized.append(c)
     return "".join(normalized)
 
